@@ -278,6 +278,25 @@ func runC10(c *Ctx) {
 	}
 	c.R.Check("G-commit", "Check|size and nonce are distinct script words", len(words) == 2 && offs[0] && offs[4], c.pos(chk.Pos()), fmt.Sprintf("%d little-endian words read behind the root at byte offsets %v", len(words), keysInt(offs)))
 
+	// P-pure: the hashes the proof is checked against are recomputed from the fields on every call
+	c.R.Rule("P-pure", "BtcTx.Hash and BtcHeader.Hash, whose results AuxPow.Check compares, are functions of the current field values: they store nothing into their receiver (no memoised hash that could outlive a change or a re-decode of the object)")
+	for _, tn := range []string{"BtcTx", "BtcHeader"} {
+		hf := c.fn("auxpow", tn, "Hash")
+		if hf == nil {
+			continue
+		}
+		bad := ""
+		for _, b := range hf.Blocks {
+			for _, in := range b.Instrs {
+				if st, ok := in.(*ssa.Store); ok {
+					if fa, ok := st.Addr.(*ssa.FieldAddr); ok && !isLocalRoot(st.Addr) && ssau.TypeName(fa.X.Type()) == tn {
+						bad = ownerField(fa) + " at " + c.posOf(st)
+					}
+				}
+			}
+		}
+		c.R.Check("P-pure", tn+".Hash|no state written", bad == "", c.pos(hf.Pos()), "Hash() writes "+bad+": a cached hash survives later changes of the object, so a proof is checked against the hash of different bytes")
+	}
 	// D-slot
 	if g := c.fn("auxpow", "", "GetExpectedIndex"); g != nil {
 		for _, p := range []string{"nonce", "chainID", "h"} {
@@ -288,6 +307,14 @@ func runC10(c *Ctx) {
 				}
 			}
 			c.R.Check("D-slot", "GetExpectedIndex|depends on "+p, ok, c.pos(g.Pos()), "the slot is a function of "+p)
+		}
+		// the slot formula is fixed by the merged-mining convention every parent chain miner follows:
+		// ((nonce*1103515245 + 12345 + chainID) * 1103515245 + 12345) mod 2^h in 32-bit arithmetic
+		const slotFormula = "conv<int>((((((1103515245*nonce)+12345+conv<uint32>(chainID))*1103515245)+12345)%(1<<conv<uint32>(h))))"
+		for _, ret := range ssau.Returns(g) {
+			got := canonExpr(ret.Results[0], map[ssa.Value]bool{}, 0)
+			c.R.Check("D-slot", "GetExpectedIndex|merged-mining slot formula", normSlot(got) == normSlot(slotFormula), c.posOf(ret),
+				"the expected slot is ((nonce*1103515245+12345+chainID)*1103515245+12345) mod 2^h; the code computes "+got)
 		}
 	}
 	if g := c.fn("auxpow", "", "GetMerkleRoot"); g != nil {
@@ -559,4 +586,10 @@ func viaHelperResult(pred func(ssa.Value) bool) func(ssa.Value) bool {
 		return all && any
 	}
 	return lifted
+}
+
+// normSlot removes the typed-constant suffixes and spaces canonExpr prints, so that only the expression shape counts.
+func normSlot(s string) string {
+	r := strings.NewReplacer(" ", "", ":uint32", "", ":int", "")
+	return r.Replace(s)
 }
